@@ -183,6 +183,13 @@ def gen_universe(rng: random.Random, **opts: Any) -> dict:
             # cross-collection link: POST /tasks -> DELETE /task/{id} (a different resource with the same id value)
             a["links"].append({"from": "create", "to": "delete", "to_collection": b["name"], "key": "201", "by": "operationId",
                                "params": {"id": "$response.body#/id"}})
+    if opts.get("cross_delete") and len(collections) >= 2 and not opts.get("s_siblings"):
+        a, b = collections[0], collections[1]
+        if ("create" in a["kinds"] and "delete" in b["kinds"] and "delete" not in b["no_opid"] and a["id_type"] == b["id_type"]
+                and content_hash("xdel", a["name"], b["name"]) % 2 == 0):
+            # POST /a -> DELETE /b/{id}: a delete of an unrelated resource that happens to carry the same identifier value
+            a["links"].append({"from": "create", "to": "delete", "to_collection": b["name"], "key": "201", "by": "operationId",
+                               "params": {"id": "$response.body#/id"}})
     # specification version: derived from the drawn content (no extra rng draw, so the other dimensions of a seed stay put)
     spec = opts.get("spec") or ["3.0", "3.0", "2.0", "3.1", "3.0", "2.0"][content_hash(json.dumps(collections, sort_keys=True)) % 6]
     import os
@@ -285,6 +292,23 @@ def gen_link_repertoire(rng, kinds, props, required, qparams, id_type, opts) -> 
             # "same listing again": every declared query parameter is carried over from the source request
             links.append({"from": "list", "to": "list", "key": "200", "by": "operationId",
                           "params": {rng.choice(["query.", ""]) + n: f"$request.query.{n}" for n in pq}})
+    # whole-document bodies and optional fields, by content hash: `requestBody: $response.body` hands the parsed source document
+    # itself to the derived request; a parameter taken from an *optional* field is unresolvable whenever the source lacks it
+    optional_strings = [p[0] for p in props if p[1].get("type") == "string" and p[0] not in required]
+    for link in links:
+        h = content_hash("whole", link["from"], link["to"], json.dumps(link["params"], sort_keys=True))
+        if isinstance(link.get("requestBody"), dict) and link.get("merge_body", True) and link["from"] in ("create", "read") and h % 3 == 0:
+            link["requestBody"] = "$response.body"
+        if id_type == "integer" and link["from"] == "create" and link["to"] in ("read", "update", "delete") and optional_strings and h % 5 == 1 \
+                and not link.get("malformed"):
+            # the identifier is taken from an optional string field: unresolvable whenever the created object lacks the field (then
+            # the generator has to supply an integer), a string that is no integer when it has it
+            k = next((k for k in link["params"] if k in ("id", "path.id")), None)
+            if k is not None:
+                link["params"][k] = f"$response.body#/{optional_strings[h % len(optional_strings)]}"
+        if link["to"] == "list" and link["from"] == "create" and optional_strings and h % 2 == 0:
+            k = next(iter(link["params"]))
+            link["params"][k] = f"$response.body#/{optional_strings[h % len(optional_strings)]}"
     # literal (non-expression) values in link bodies, by content hash: whole floats next to booleans (1.0 / true, 0.0 / false are
     # equal for Python, different for JSON), plain integers and strings
     ptypes = {p[0]: p[1].get("type") for p in props}
